@@ -107,10 +107,43 @@ func (c *Ctx) formatTable(fn *ssa.Function, perColumn string) (string, ssa.Instr
 			}
 		}
 	}
-	var ls []ssa.Value
-	leaves(fmtArg, map[ssa.Value]bool{}, &ls)
+	// the selected format may be computed inline or by a small helper of the package (inlined here)
+	type leaf struct {
+		v     ssa.Value
+		fn    *ssa.Function           // function the leaf lives in
+		subst map[ssa.Value]ssa.Value // helper parameter -> caller argument
+	}
+	var ls []leaf
+	var top []ssa.Value
+	leaves(fmtArg, map[ssa.Value]bool{}, &top)
+	for _, l := range top {
+		if call, ok := l.(*ssa.Call); ok {
+			if h := core.StaticCallee(call); h != nil && c.P.InPkg(h, "wire") && len(h.Blocks) > 0 && len(h.Params) == len(call.Call.Args) {
+				sub := map[ssa.Value]ssa.Value{}
+				for i, p := range h.Params {
+					sub[p] = call.Call.Args[i]
+				}
+				for _, r := range returns(h) {
+					var inner []ssa.Value
+					leaves(r.Results[0], map[ssa.Value]bool{}, &inner)
+					for _, iv := range inner {
+						ls = append(ls, leaf{iv, h, sub})
+					}
+				}
+				continue
+			}
+		}
+		ls = append(ls, leaf{l, fn, nil})
+	}
+	actual := func(lf leaf, v ssa.Value) ssa.Value {
+		if a, ok := lf.subst[v]; ok {
+			return a
+		}
+		return v
+	}
 	var desc []string
-	for _, l := range ls {
+	for _, lf := range ls {
+		l := lf.v
 		u, ok := l.(*ssa.UnOp)
 		ia, ok2 := (*ssa.IndexAddr)(nil), false
 		if ok {
@@ -120,9 +153,9 @@ func (c *Ctx) formatTable(fn *ssa.Function, perColumn string) (string, ssa.Instr
 			desc = append(desc, "other:"+l.String())
 			continue
 		}
-		// describe the slice indexed
+		// describe the slice indexed (in the caller's terms)
 		var sl []ssa.Value
-		leaves(ia.X, map[ssa.Value]bool{}, &sl)
+		leaves(actual(lf, ia.X), map[ssa.Value]bool{}, &sl)
 		var sdesc []string
 		for _, s := range sl {
 			switch x := s.(type) {
@@ -146,7 +179,7 @@ func (c *Ctx) formatTable(fn *ssa.Function, perColumn string) (string, ssa.Instr
 				// only when the given slice is empty
 				guard := "unguarded"
 				for _, p := range fn.Params {
-					if p.Type() == ia.X.Type() {
+					if types.Identical(p.Type(), x.Type()) {
 						for _, b := range fn.Blocks {
 							for _, in := range b.Instrs {
 								cmp, ok := in.(*ssa.BinOp)
@@ -177,9 +210,9 @@ func (c *Ctx) formatTable(fn *ssa.Function, perColumn string) (string, ssa.Instr
 			desc = append(desc, sprintf("%s[%d]", src, k))
 			continue
 		}
-		if colIdx != nil && ia.Index == colIdx {
+		if colIdx != nil && core.StripConv(actual(lf, ia.Index)) == core.StripConv(colIdx) {
 			g := "unguarded"
-			if anyDominates(gtEdges(fn, isLenOfVal(ia.X), isVal(ia.Index)), u.Block()) {
+			if anyDominates(gtEdges(lf.fn, isLenOfVal(ia.X), isVal(ia.Index)), u.Block()) {
 				g = "if-len>index"
 			}
 			desc = append(desc, src+"[index]/"+g)
